@@ -448,6 +448,44 @@ fn gen_trusting(rng: &mut Rng, out: &mut Emitter, n: usize) {
     out.op(trusting_line(chain, tn2, td2, &c, &rset, true), "trusting/raw", true);
 }
 
+/// trusting verification of commits in which validators appear several times (see
+/// `multiplicity_plans`): the class where "power counted with multiplicity" and "power of the
+/// distinct trusted signers" fall on different sides of the threshold
+fn gen_trusting_multiplicity(rng: &mut Rng, out: &mut Emitter) {
+    let chain = "private";
+    let ch = chain_of(chain);
+    for shape in multiplicity_power_shapes(rng) {
+        let parties: Vec<Party> = shape.iter().map(|&p| party(rng, p)).collect();
+        let set = to_set(&LSet { vals: parties.iter().map(|p| p.val.clone()).collect(), total: 0, raw: false, prop: true });
+        // parties in stored order
+        let mut pool = parties.clone();
+        let mut ps = vec![];
+        for i in set.validators() {
+            let pos = pool.iter().position(|p| p.val.pk == i.pub_key.to_bytes() && p.val.power == i.power()).unwrap();
+            ps.push(pool.remove(pos));
+        }
+        let powers: Vec<u64> = ps.iter().map(|p| p.val.power).collect();
+        let total = set.total_voting_power().value();
+        let strangers = [party(rng, 1), party(rng, 1)];
+        let h = rng.range(2, 1_000_000);
+        for (tn, td) in [(1u64, 3u64), (1, 3), (2, 3), (1, 2)] {
+            for (slots, tag) in multiplicity_plans(rng, &powers, total, tn, td) {
+                let ents: Vec<(Ent, SigningKey, Vec<u8>)> = slots
+                    .iter()
+                    .map(|s| match s {
+                        Slot::Trusted(i) => (Ent::Commit, ps[*i].key.clone(), ps[*i].val.addr.clone()),
+                        Slot::Stranger(k) => (Ent::Commit, strangers[*k].key.clone(), strangers[*k].val.addr.clone()),
+                        Slot::Absent => (Ent::Absent, strangers[0].key.clone(), vec![0; 20]),
+                        Slot::NilOf(i) => (Ent::NilSigned, ps[*i].key.clone(), ps[*i].val.addr.clone()),
+                    })
+                    .collect();
+                let c = build_commit(rng, &ch, h, &ents);
+                out.op(trusting_line(chain, tn, td, &c, &set, false), &format!("trusting/{tag}"), true);
+            }
+        }
+    }
+}
+
 impl Prop for C03 {
     fn id(&self) -> &'static str {
         "C03"
@@ -459,7 +497,10 @@ impl Prop for C03 {
          n<=5 quick); non-signers absent/nil(signed, random sig, no sig); corruptions: forged random signature, other key, missing signature, \
          foreign address, swapped entries, post-signing mutation of timestamp/address/signature bit, length and height mismatch, other chain id; \
          trusting: commits mixing trusted validators and strangers in random order, double votes, impersonation, trust levels 1/3, 2/3, 1/2, 0/1, \
-         1/1, 1/0, u64::MAX/3, 7/5; raw sets (struct literal) with inconsistent totals and i64::MAX powers (tally overflow). \
+         1/1, 1/0, u64::MAX/3, 7/5; raw sets (struct literal) with inconsistent totals and i64::MAX powers (tally overflow); \
+         repeated validators on fixed shapes (4/8/3/6 equal powers, …) and random sets: one validator repeated until the repeated power crosses the \
+         threshold while the distinct power does not, distinct fill at/just below the threshold plus repeats (last/first/scattered), repeated \
+         strangers, repeats after/before the early exit, at levels 1/3, 2/3, 1/2. \
          Non-trivial = everything except honest single-validator cases; distinct = distinct (op, result) lines."
     }
     fn gen_ops(&mut self, rng: &mut Rng, tier: Tier, out: &mut Emitter) {
@@ -468,6 +509,9 @@ impl Prop for C03 {
             let n = if r < 10 { r + 1 } else { rng.usize(1, 10) };
             gen_light(rng, out, n, false);
             gen_trusting(rng, out, n);
+        }
+        for _ in 0..(if tier == Tier::Thorough { 40 } else { 3 }) {
+            gen_trusting_multiplicity(rng, out);
         }
         let maxn = if tier == Tier::Thorough { 8 } else { 5 };
         let reps = if tier == Tier::Thorough { 3 } else { 1 };
